@@ -269,7 +269,7 @@ func c14r3(r *R) {
 	if on.Check(len(rc) == 1, "New does not load the initial pair") {
 		ok := false
 		eachInstr(nw, func(i ssa.Instruction) {
-			if ret, isR := i.(*ssa.Return); isR && hasGuardContaining(c.guardStrs(i.Block()), "+", "ReadCertificate(") {
+			if ret, isR := i.(*ssa.Return); isR && guardErrOn(c.guardStrs(i.Block()), "ReadCertificate(") {
 				ok = c.Expr(ret.Results[0]) == "nil" && c.Expr(ret.Results[1]) != "nil"
 			}
 		})
